@@ -159,7 +159,10 @@ func verdict(text string, bounded bool) (accepted bool, err error) {
 	if cerr != nil {
 		return true, cerr
 	}
-	// re-encode and parse again
+	// re-encode and parse again (other callers have used the encoder with other
+	// settings before: a digit limit given to one call is that call's)
+	_, _ = wkt.Marshal(geom.NewPointFlat(geom.XY, []float64{0.123456789, -7.5}), wkt.EncodeOptionWithMaxDecimalDigits(len(text)%4))
+	_, _ = wkt.NewEncoder(wkt.EncodeOptionWithMaxDecimalDigits(1)).Encode(geom.NewPointFlat(geom.XY, []float64{0.123456789, -7.5}))
 	out, err := wkt.Marshal(g)
 	if err != nil {
 		return true, fmt.Errorf("re-encoding an accepted geometry failed: %v", err)
